@@ -107,3 +107,178 @@ def install_warning_trap():
     if TRAP not in lg.handlers:
         lg.addHandler(TRAP)
     return TRAP
+
+
+# ---------------------------------------------------------------------------------------------
+# BoundsTracer — C04's monitor, also attached while other properties' workloads run
+# ---------------------------------------------------------------------------------------------
+class StepBroken(Exception):
+    pass
+
+
+class BoundsTracer:
+    """Wraps bounds() and tighten_bounds() on every class of the package that defines them.
+
+    Rules (each learnt from a false alarm of the prototype on the unchanged tree):
+      1. per-object state lives on the instance __dict__ (ids are reused: MultiSetEdit.bounds() creates and
+         drops Remove/Insert objects on every call);
+      2. only the OUTERMOST bounds() call on an object is an exposure (EditCollection/EditDistance call
+         super().bounds() as a helper);
+      3. a read made while the same object is inside its own tighten_bounds() is transient: counted, not judged.
+    tighten_bounds() carries an icontract snapshot/ensure pair (interval before the call in OLD.b); the
+    postcondition records and returns True so that one alarm does not abort the execution it observes."""
+
+    EVENT_BUDGET = 2_000_000
+
+    def __init__(self):
+        self.events = collections.Counter()
+        self.violations = []
+        self.inmon = False
+        self.installed = False
+        self.case_events = 0
+        self.enabled = True
+
+    # -- per case --------------------------------------------------------------------------
+    def reset(self):
+        self.violations = []
+        self.case_events = 0
+
+    def _tick(self):
+        self.case_events += 1
+        if self.case_events > self.EVENT_BUDGET:
+            self.case_events = 0
+            from gv.core import Budget
+            raise Budget(f"more than {self.EVENT_BUDGET} monitored bounds()/tighten_bounds() calls in one case")
+
+    def _flag(self, kind, obj, **kw):
+        if len(self.violations) < 50:
+            kw.update(kind=kind, cls=type(obj).__name__)
+            self.violations.append(kw)
+
+    @staticmethod
+    def _valid(o):
+        try:
+            return o.__dict__.get("_valid", True)
+        except Exception:
+            return True
+
+    def _quiet_bounds(self, o):
+        prev = self.inmon
+        self.inmon = True
+        try:
+            return o.bounds()
+        finally:
+            self.inmon = prev
+
+    def _observe(self, o, b, how):
+        """History rule: every exposed interval is contained in the previous one."""
+        if not self._valid(o):
+            self.events["skipped:invalidated"] += 1
+            return
+        d = o.__dict__
+        last = d.get("_gv_last")
+        lb, ub = b.lower_bound, b.upper_bound
+        if last is not None and (lb < last[0] or ub > last[1]):
+            self._flag("interval-widened", o, prev=[str(last[0]), str(last[1])], now=[str(lb), str(ub)], via=how)
+        d["_gv_last"] = (lb, ub)
+
+    # -- wrappers ---------------------------------------------------------------------------
+    def _wrap_bounds(self, cls):
+        orig = cls.__dict__["bounds"]
+        tracer = self
+
+        @functools.wraps(orig)
+        def bounds(self, *a, **k):
+            d = self.__dict__
+            outer = d.get("_gv_bdepth", 0) == 0
+            d["_gv_bdepth"] = d.get("_gv_bdepth", 0) + 1
+            try:
+                r = orig(self, *a, **k)
+            finally:
+                d["_gv_bdepth"] -= 1
+            if tracer.enabled and not tracer.inmon and outer:
+                tracer._tick()
+                if d.get("_gv_depth", 0) > 0:
+                    tracer.events[f"{cls.__name__}.bounds:transient"] += 1
+                else:
+                    tracer.events[f"{cls.__name__}.bounds"] += 1
+                    tracer._observe(self, r, "bounds")
+            return r
+        cls.bounds = bounds
+
+    def _wrap_tighten(self, cls):
+        import icontract
+        orig = cls.__dict__["tighten_bounds"]
+        tracer = self
+
+        @functools.wraps(orig)
+        def inner(self, *a, **k):
+            d = self.__dict__
+            d["_gv_depth"] = d.get("_gv_depth", 0) + 1
+            try:
+                return orig(self, *a, **k)
+            finally:
+                d["_gv_depth"] -= 1
+
+        def bounds_before(self):
+            if not tracer.enabled:
+                return None
+            return tracer._quiet_bounds(self)
+
+        def step_ok(self, result, OLD):
+            if not tracer.enabled or OLD.b is None:
+                return True
+            tracer._tick()
+            before = OLD.b
+            after = tracer._quiet_bounds(self)
+            tracer.events[f"{cls.__name__}.tighten_bounds:{bool(result)}"] += 1
+            if not tracer._valid(self):
+                tracer.events["skipped:invalidated"] += 1
+                return True
+            if self.__dict__.get("_gv_depth", 0) == 0:
+                tracer._observe(self, before, "before-tighten")
+                tracer._observe(self, after, "after-tighten")
+            if after.lower_bound < before.lower_bound or after.upper_bound > before.upper_bound:
+                tracer._flag("step-widened", self, before=str(before), after=str(after), returned=bool(result))
+            elif result and not (after.lower_bound > before.lower_bound or after.upper_bound < before.upper_bound):
+                tracer._flag("progress-reported-without-shrinking", self, before=str(before), after=str(after))
+            elif not result and not after.definitive():
+                tracer._flag("no-progress-on-non-definitive", self, before=str(before), after=str(after))
+            elif not result and (after.lower_bound != before.lower_bound or after.upper_bound != before.upper_bound):
+                # the step shrank the interval to a single value but returned False: allowed by the property's wording
+                # ("reports no progress only once the interval is a single value"); counted, not judged
+                tracer.events[f"unjudged:{cls.__name__}:returned-False-after-shrinking-to-a-single-value"] += 1
+            if after.definitive():
+                tracer.events[f"{cls.__name__}:reached-definitive"] += 1
+            return True
+
+        cls.tighten_bounds = icontract.snapshot(bounds_before, name="b")(
+            icontract.ensure(step_ok, error=StepBroken)(inner))
+
+    def classes(self):
+        import graphtage
+        import graphtage.bounds as gb, graphtage.edits as ge, graphtage.matching as gm, graphtage.search as gs
+        import graphtage.sequences as gseq, graphtage.multiset as gms, graphtage.levenshtein as gl
+        import graphtage.xml as gx, graphtage.dataclasses as gdc, graphtage.pydiff as gpd, graphtage.graphtage as gg
+        seen = []
+        for mod in (gb, ge, gm, gs, gseq, gms, gl, gx, gg, gdc, gpd):
+            for k, v in vars(mod).items():
+                if isinstance(v, type) and str(v.__module__).startswith("graphtage") and v.__name__ not in ("Range", "Bounded") \
+                        and ("tighten_bounds" in v.__dict__ or "bounds" in v.__dict__) and v not in seen:
+                    seen.append(v)
+        return seen
+
+    def install(self):
+        if self.installed:
+            return
+        self.wrapped = []
+        for c in self.classes():
+            if "bounds" in c.__dict__ and not getattr(c.__dict__["bounds"], "__isabstractmethod__", False):
+                self._wrap_bounds(c)
+            if "tighten_bounds" in c.__dict__ and not getattr(c.__dict__["tighten_bounds"], "__isabstractmethod__", False):
+                self._wrap_tighten(c)
+            self.wrapped.append(c.__name__)
+        self.installed = True
+
+
+TRACER = BoundsTracer()
